@@ -717,6 +717,27 @@ def sshsig_worker(job):
     return acc
 
 
+def hostcert_auth_worker(job):
+    """Host certificates presented for host-based authentication (checks/c05.py's harness, the histories whose
+    credentials are certificates): a certificate is accepted only for a host its principals name -- the host the
+    request is judged as (claimed name when the server trusts it, else the name the address resolves to)."""
+    import c05
+    acc = core.Acc()
+    for trust, hist in job:
+        viol = c05.hb_run(trust, hist)
+        acc.add(core.digest(('hostcert-auth', trust, hist)), transitions=len(hist))
+        for k, d in viol:
+            acc.violation('cert:hostbased:%s:trust=%s' % (k, trust), d,
+                          {'kind': 'hostcert-auth', 'trust': trust, 'hist': [list(r[:3]) + [list(r[3]) if isinstance(r[3], tuple) else r[3], r[4]] for r in hist]})
+    return acc
+
+
+def hostcert_auth_jobs(tier):
+    import c05
+    cases = [(t, h) for chunk in c05.hb_jobs(tier) for t, h in chunk if any(isinstance(r[3], tuple) for r in h)]
+    return [cases[i::16] for i in range(16)]
+
+
 def main(tier, seed):
     t0 = core.now()
     os.makedirs(SCRATCH, exist_ok=True)
@@ -732,6 +753,7 @@ def main(tier, seed):
     P.install_wire_labels()
     acc.merge(core.pmap(rekey_worker, [rekey_cases()[i::8] for i in range(8)]))
     acc.merge(core.pmap(sshsig_worker, [tier]))
+    acc.merge(core.pmap(hostcert_auth_worker, hostcert_auth_jobs(tier)))
     shutil.rmtree(SCRATCH, ignore_errors=True)
     rule = ('signatures: 7 key types x all their signature algorithms x 3 messages x every single-byte edit of the '
             'signature (xor 01/80 at every offset, deletions, insertions), message edits, 11 algorithm relabels, '
@@ -741,7 +763,8 @@ def main(tier, seed):
             'credential with the CA trusted by file, by application callback or not at all; a host certificate that '
             'expires between connect and the first re-exchange (started by either side); ssh-keygen -s / -L; SSHSIG: 13 allowed-signers forms x 6 clock values x 3 '
             'principals, binding to message/namespace/CA, every single-byte edit of raw and armoured signatures, '
-            'ssh-keygen -Y sign/verify' % len(grid))
+            'ssh-keygen -Y sign/verify; host certificates in host-based authentication: sequences of 1-2 requests (claimed host x credential), '
+            'server trusting the claimed name or resolving the address' % len(grid))
     return core.finish(PROP, tier, seed, 'exploration', acc, t0, rule,
                        {'signature_cases': n_sig, 'cert_grid': len(grid)},
                        assumptions=['the certificate predicate follows PROTOCOL.certkeys: type, window '
@@ -769,6 +792,9 @@ def replay(rep):
     elif k == 'rekey':
         P.install_wire_labels()
         acc = rekey_worker([tuple(r['case'])])
+    elif k == 'hostcert-auth':
+        hist = tuple((h[0], h[1], h[2], tuple([h[3][0], h[3][1], tuple(h[3][2])]) if isinstance(h[3], list) else h[3], h[4]) for h in r['hist'])
+        acc = hostcert_auth_worker([(r['trust'], hist)])
     elif k == 'keygen':
         acc = keygen_cross()
     else:
